@@ -125,6 +125,11 @@ def encode(rng, wbits, total, delta=False, ref=b'', e8=False, reset_interval=0, 
                 hostile2 = early==2 and p>=32768 and not hostile_done and lim-p>=2 and p+1<=wsize-3
                 if (maxoff>=1 and lim-p>=2 and rng.random()<match_p) or hostile2:
                     ml=rng.randint(2,min(257,lim-p)) if rng.random()<0.8 else min(257,lim-p)
+                    if delta and ml==257 and lim-p>257+1 and rng.random()<0.6:
+                        # LZX DELTA: extended match length in one of its four codings ('0'+8, '10'+10, '110'+12, '111'+15 bits)
+                        room=lim-p-257
+                        ext=rng.choice([rng.randint(1,255), rng.randint(256,1279), rng.randint(1280,5375), rng.randint(5376,32767), rng.randint(5376,6500), room])
+                        ml=257+min(ext,room)
                     mode=rng.random()
                     if hostile2: mode=1.0; hostile_done=True
                     if mode<0.25 and r[0]<=maxoff: off=r[0]; slot=0
@@ -178,7 +183,7 @@ def encode(rng, wbits, total, delta=False, ref=b'', e8=False, reset_interval=0, 
             if t[0]=='L': used_main.add(t[1])
             else:
                 _,ml,off,slot=t; lh=min(ml-2,7); used_main.add(256+slot*8+lh)
-                if lh==7: used_len.add(ml-2-7)
+                if lh==7: used_len.add(min(ml,257)-2-7)
         if not used_main: used_main.add(0)
         if btype==2:
             al=rand_lens(rng,set(range(8)),8,7)
@@ -202,7 +207,7 @@ def encode(rng, wbits, total, delta=False, ref=b'', e8=False, reset_interval=0, 
             else:
                 _,ml,off,slot=t; lh=min(ml-2,7)
                 c,l=mc[256+slot*8+lh]; bw.bits(c,l)
-                if lh==7: c2,l2=lc[ml-2-7]; bw.bits(c2,l2)
+                if lh==7: c2,l2=lc[min(ml,257)-2-7]; bw.bits(c2,l2)
                 if slot>=3:
                     ex=extra_of(slot); v=off+2-POSBASE[slot]
                     if btype==2 and ex>=3:
@@ -212,7 +217,12 @@ def encode(rng, wbits, total, delta=False, ref=b'', e8=False, reset_interval=0, 
                     R=[off,R[0],R[1]]
                 elif slot==1: R[0],R[1]=R[1],R[0]
                 elif slot==2: R[0],R[2]=R[2],R[0]
-                if ml==257 and delta: bw.bits(0,1); bw.bits(0,8)
+                if ml>=257 and delta:
+                    ext=ml-257
+                    if ext<256: bw.bits(0,1); bw.bits(ext,8)
+                    elif ext<1280: bw.bits(2,2); bw.bits(ext-256,10)
+                    elif ext<5376: bw.bits(6,3); bw.bits(ext-1280,12)
+                    else: bw.bits(7,3); bw.bits(ext,15)
                 for _ in range(ml):
                     srcpos=len(data)-off
                     data.append(data[srcpos] if srcpos>=0 else (ref[len(ref)+srcpos] if delta and len(ref)+srcpos>=0 else 0))
